@@ -458,7 +458,9 @@ class Gen:
         # except signed overflow of the promoted computation which cannot happen for +1/-1/small on promoted
         # values unless the field is a full-width long: use unsigned-safe forms there)
         for f, w, _ in fields:
-            if w < 32 or not signed(bt):
+            # the computation is done in int when the field is narrower than int (promotion): no overflow for
+            # signed w <= 31 and unsigned w <= 30; unsigned fields of >= 32 bits wrap; everything else uses ^=
+            if (signed(bt) and w <= 31) or (not signed(bt) and (w <= 30 or w >= 32)):
                 c = r.below(5)
                 st = ["z.%s += 3;", "z.%s -= 5;", "z.%s++;", "--z.%s;", "z.%s ^= 1;"][c] % f
                 body.append("  " + st)
